@@ -211,9 +211,10 @@ func (b *broker) serve(wg *sync.WaitGroup) {
 			}
 			_, _ = c.Write(hello(e, ccb.CommandReverseConnect, 0))
 		case "other-broker-id":
+			// the id another broker's request of the same dial carries (that broker, or anyone it told, knows it)
 			o := wrong
 			for _, x := range b.others() {
-				if x != "" && x != id {
+				if x != "" {
 					o = x
 				}
 			}
@@ -314,9 +315,13 @@ func runDial(c Case, earlier []string) (dialOutcome, []*broker) {
 		contacts = append(contacts, addresses.CCBContact{BrokerAddr: addr, CCBID: "7", Raw: addr + "#7"})
 	}
 	for _, b := range brokers {
+		self := b
 		b.others = func() []string {
 			var ids []string
 			for _, o := range brokers {
+				if o == self {
+					continue
+				}
 				o.mu.Lock()
 				ids = append(ids, o.connID)
 				o.mu.Unlock()
@@ -467,9 +472,30 @@ func judge(c Case, o dialOutcome, brokers []*broker) (string, bool) {
 	return "", rogueFirst
 }
 
+// freshIDs: every request of a dial carries its own connect id.
+func freshIDs(brokers []*broker) string {
+	seen := map[string]int{}
+	for i, b := range brokers {
+		b.mu.Lock()
+		id := b.connID
+		b.mu.Unlock()
+		if id == "" {
+			continue
+		}
+		if j, dup := seen[id]; dup {
+			return fmt.Sprintf("the requests sent to broker %d and broker %d of one dial carry the same connect id: it is not generated for that very request", j, i)
+		}
+		seen[id] = i
+	}
+	return ""
+}
+
 func runCase(c Case) (string, bool) {
 	o, brokers := runDial(c, nil)
 	v, nt := judge(c, o, brokers)
+	if v == "" {
+		v = freshIDs(brokers)
+	}
 	if v != "" || !c.Second {
 		return v, nt
 	}
